@@ -5,5 +5,5 @@ CONSTANTS
   Stride = 1
   Pairs = 600
   Randoms = 600
-  NBombs = 19
+  NBombs = 20
   RefStride = 1
